@@ -25,9 +25,27 @@ impl Doc {
         let s = self.text[mode].join("\n");
         // chunk plan: cut the text at generated char boundaries; sometimes emit empty chunks and lone "\n"
         let mut seed = splitmix(self.chunk_seed ^ mode as u64);
-        let style = seed % 4;
+        let style = seed % 6;
         if style == 0 {
             return f.write_str(&s);
+        }
+        if style >= 4 {
+            // text through write_str, but characters (style 4: every one, style 5: the line breaks) through
+            // Formatter::write_char — the way `write!(f, "{}{}", a, '\n')` or a join loop reaches the writer
+            use fmt::Write as _;
+            let mut buf = String::new();
+            for c in s.chars() {
+                if style == 4 || c == '\n' {
+                    if !buf.is_empty() {
+                        f.write_str(&buf)?;
+                        buf.clear();
+                    }
+                    f.write_char(c)?;
+                } else {
+                    buf.push(c);
+                }
+            }
+            return if buf.is_empty() { Ok(()) } else { f.write_str(&buf) };
         }
         let mut start = 0;
         let bytes = s.as_bytes();
